@@ -22,7 +22,7 @@ def tp():
         from onnx import TensorProto
         _TP = {"float32": TensorProto.FLOAT, "float64": TensorProto.DOUBLE, "int64": TensorProto.INT64,
                "int32": TensorProto.INT32, "uint8": TensorProto.UINT8, "int8": TensorProto.INT8,
-               "float16": TensorProto.FLOAT16}
+               "float16": TensorProto.FLOAT16, "bool": TensorProto.BOOL}
     return _TP
 
 
